@@ -117,7 +117,11 @@ def gen_definition(rng, fam):
         if r < 0.96:
             # conditions whose value is not a boolean: truthiness decides ([] / "" / 0 / null are false)
             return rng.choice([L.ctx("lst"), L.e("result()"), L.ctx("x"), L.ctx("n"), L.e("ctx().get('z')"),
-                               L.ctx("dv")])
+                               L.ctx("dv"),
+                               # a filter pipeline: its value is a (possibly empty) sequence, truthiness decides
+                               L.e("ctx().lst.where($ > 5)", "ctx().lst | select('gt', 5)"),
+                               L.e("ctx().lst.where($ > 1)", "ctx().lst | select('gt', 1)"),
+                               L.e("ctx().lst.where($ > 5)", "ctx().lst | reject('lt', 9)")])
         return L.e("succeeded() and ctx().n < 5")
 
     for i, t in enumerate(names):
@@ -244,7 +248,7 @@ def gen_definition(rng, fam):
         i = rng.randint(1, n - 2)     # the loop head keeps an entry from outside the loop (it is not a start task)
         j = rng.randint(i, min(n - 2, i + 2))
         body = names[i:j + 1]
-        ok = all("join" not in tasks[b] and "with" not in tasks[b] for b in body)
+        ok = all("join" not in tasks[b] and ("with" not in tasks[b] or fam.get("loop_items")) for b in body)
         if ok:
             for b in body[:-1]:
                 tasks[b]["next"] = [{"do": [names[names.index(b) + 1]]}]
